@@ -42,6 +42,10 @@ SCRIPTS = {
     "rebind": ["c_bind", "d_cs_all", "s_final", "d_sc_all", "c_bind", "d_cs_all", "s_final", "d_sc_all"],
     "two_searches": ["c_search", "c_search", "d_cs_all", "s_entry", "s_final", "s_entry", "s_final", "d_sc_all"],
     "bind_partial": ["c_bind", "d_cs_half", "d_cs_1", "d_cs_all", "s_final", "d_sc_half", "d_sc_all"],
+    "ops_then_bind": ["c_ext", "d_cs_all", "s_final", "d_sc_all", "c_bind", "d_cs_all", "s_final", "d_sc_all", "c_search", "d_cs_all"],
+    "search_then_bind": ["c_search", "d_cs_all", "s_entry", "s_final", "d_sc_all", "c_bind", "d_cs_half", "d_cs_all", "s_final", "d_sc_all"],
+    "reassembled_then_more": ["c_ext", "d_cs_1", "d_cs_half", "d_cs_all", "c_ext", "d_cs_all", "s_final", "s_final", "d_sc_half", "d_sc_all", "c_search", "d_cs_all", "s_entry", "d_sc_all"],
+    "reassembled_then_empty": ["c_search", "d_cs_half", "d_cs_all", "s_entry", "d_sc_1", "d_sc_all", "s_final", "d_sc_all", "c_ext", "d_cs_all"],
     "notice_alone": ["c_ext", "d_cs_all", "s_notice", "d_sc_all"],
     "notice_after_response": ["c_search", "c_ext", "d_cs_all", "s_final", "s_notice", "d_sc_all"],
     "notice_split": ["c_search", "c_ext", "d_cs_all", "s_final", "d_sc_all", "s_notice", "d_sc_half", "d_sc_all"],
